@@ -45,7 +45,7 @@ Lemma oversize_rejected_lemma : forall pomdp ls p body,
   (max_elems < pS p * pA p * pS p)%N ->
   parse_lines true pomdp ls = Throw E_too_large.
 Proof.
-  intros pomdp ls p body Hp HS HA HO Hbig. unfold parse_lines. rewrite Hp. cbn [bind fst snd].
+  intros pomdp ls p body Hp HS HA HO Hbig. unfold parse_lines, parse_lines_from. rewrite Hp. cbn [bind fst snd].
   apply N.eqb_neq in HS. apply N.eqb_neq in HA. rewrite HS, HA. cbn [orb].
   assert (E : (pomdp && (pO p =? 0)%N) = false).
   { destruct pomdp; [| reflexivity]. cbn [andb]. apply N.eqb_neq. apply HO. reflexivity. }
